@@ -407,12 +407,17 @@ func maskOfBoolValue(v ssa.Value) (int64, bool) {
 // maskThroughParametrisedHelper: v is result #j of a call of a same-package helper whose result #j is `x & p != 0` for
 // one of its parameters p, called with a constant for p: that constant.
 func maskThroughParametrisedHelper(v ssa.Value) (int64, bool) {
-	ex, ok := stripConv(v).(*ssa.Extract)
-	if !ok {
-		return 0, false
+	// (a helper with several results, or a plain predicate `hasFlag(v, <const mask>) bool`)
+	var ex struct{ Index int }
+	var call *ssa.Call
+	switch x := stripConv(v).(type) {
+	case *ssa.Extract:
+		ex.Index = x.Index
+		call, _ = x.Tuple.(*ssa.Call)
+	case *ssa.Call:
+		call = x
 	}
-	call, ok := ex.Tuple.(*ssa.Call)
-	if !ok {
+	if call == nil {
 		return 0, false
 	}
 	g := call.Call.StaticCallee()
@@ -580,7 +585,11 @@ func runFlagTyping(c *Ctx, rule string) {
 					}
 				case *ssa.Store:
 					if fa, ok := x.Addr.(*ssa.FieldAddr); ok && isBoolType(x.Val.Type()) {
-						if m, ok := maskOfBoolValue(x.Val); ok {
+						m, ok := maskOfBoolValue(x.Val)
+						if !ok {
+							m, ok = maskThroughParametrisedHelper(x.Val)
+						}
+						if ok {
 							tn, f := fieldAddrName(fa)
 							fieldMask[tn+"."+f] = m
 						}
